@@ -36,7 +36,7 @@ func oracleC07(f *sessionFam, w *World, res *Result) []Violation {
 		v4 := conns[0].N == 4
 		ctx := f.sessCtx(a)
 		var closeEv *Ev
-		if c := w.evs(a, "close"); len(c) > 0 {
+		if c := w.closesOf(a); len(c) > 0 {
 			closeEv = &c[0]
 		}
 		endT := simEnd(w)
